@@ -2,7 +2,8 @@
 From Coq Require Import Reals.
 From Coq Require Import List Lra.
 Import ListNotations.
-Require Import Cox.Num.Ops Cox.Geo.Vec Cox.Model.Special Cox.Gen.Scalars Cox.Thm.DistanceThm Cox.Thm.RayCastThm.
+Require Import Cox.Num.Ops Cox.Geo.Vec Cox.Model.Special Cox.Gen.Scalars Cox.Thm.DistanceThm Cox.Thm.RayCastThm
+  Cox.Model.DistanceBranches Cox.Thm.DistanceBranchesThm.
 Local Open Scope R_scope.
 
 (* Ellipse (definition regenerated from the source on every run): for EVERY real theta the point
@@ -50,6 +51,19 @@ Theorem C14_convex_radial_distance_exists :
 Proof. exact ray_exit_exists. Qed.
 Print Assumptions C14_convex_radial_distance_exists.
 
+(* THE CODE'S OWN FORMULAS for one edge (x1,y1)-(x2,y2) of the centred polygon - the vertical-edge, horizontal-edge and generic (slope /
+   intercept / tan) branches of ConvexPolygon._distance_to_surface_from, Model/DistanceBranches.v, run float-extracted against the
+   implementation - return the parameter t of the point t (cos th, sin th) at which the ray meets the edge's line, whenever that point lies
+   ahead of the centre and the ray is not parallel to the edge *)
+Theorem C14_edge_branches_are_ray_parameter :
+  forall x1 y1 x2 y2 t th : R,
+    0 < t -> on_line x1 y1 x2 y2 t th ->
+    (x2 - x1) * sin th - (y2 - y1) * cos th <> 0 ->
+    (x1 <> x2 -> y1 <> y2 -> cos th <> 0) ->
+    edge_distance x1 y1 x2 y2 th = t.
+Proof. exact edge_distance_is_ray_parameter. Qed.
+Print Assumptions C14_edge_branches_are_ray_parameter.
+
 (* Rounded corner of a spheropolygon: along the unit direction u the circle of radius r about the vertex v is met at
    t = u.v + sqrt(r^2 - (u x v)^2), and no point of the circle on that line is farther *)
 Theorem C14_rounded_corner :
@@ -75,6 +89,6 @@ Theorem C14_any_real_angle :
 Proof. exact direction_periodic. Qed.
 Print Assumptions C14_any_real_angle.
 
-(* partial: the code's sector-selection (atan2 binning, slope/intercept branches) for polygons and the
+(* partial: the code's sector-selection (atan2 binning) for polygons and the
    arc patches of spheropolygons are not modelled step by step; the implementation's output is judged
    against the definition itself (exact distance of centre + d u to the core's boundary = r). *)
